@@ -217,10 +217,10 @@ public:
      */
     auto clean_expired_values() -> size_t
     {
-        size_t start_size = m_ttl_list.size();
-        auto   now        = std::chrono::steady_clock::now();
+        auto now = std::chrono::steady_clock::now();
 
         std::lock_guard guard{m_lock};
+        size_t          start_size = m_ttl_list.size();
         // Loop through and delete all items that are expired.
         while (m_used_size > 0 && now >= m_ttl_list.begin()->first)
         {
